@@ -19,7 +19,7 @@ func init() {
 		Explanation: "(R1) each has_* walk agrees with the found component of its get_* sibling — same seed, same direction, same stop condition, same delta-kind→found map — or delegates to it, and the exported Get* return the inner found flag unchanged; " +
 			"(R2) get_first scans the block's deltas forward and answers at the first delta of the key, get_last/get_at scan backward, get_at stops exactly at delta.Ordinal <= ord, and per delta kind the value/found answer is the one the semantics dictate; " +
 			"(R3) Flush sorts the recorded operations with a stable sort whose comparator reads only the ordinal, before applying any of them; " +
-			"(R4) every delta built by the write path carries the ordinal, key, previous value and new value of what is applied, CREATE only when absent, and is appended to the block's delta list iff applied.",
+			"(R4) every delta built by the write path carries the ordinal, key, previous value and new value of what is applied, CREATE only when absent, and is appended to the block's delta list iff applied. Also (R3) baseStore.Reset reassigns the operation log, the deltas and the last ordinal on every path.",
 		NotCovered:  "That arbitrary operation sequences produce the model's answers end to end (the per-kind tables, seeds, directions and stop conditions are decided; their composition over a whole block is argued, not executed).",
 		Assumptions: []string{"slices.SortStableFunc / sort.SliceStable are stable", "the deltas of a block are in application order (C08.R3/R4)"},
 	})
@@ -462,6 +462,7 @@ func runC08(p *core.Prog, r *core.Report) {
 		r.Pass("C08.R2", "GetAt/setsum-tag", "get_at strips the 4-byte set:/sum: tag only from a value that was found in a set_sum store: for every other policy the bytes read are the bytes written", p.Pos(fn.Pos()))
 	})
 	r.Guard("C08.R4", "in-place", "store values are never written in place", func() { checkNoInPlaceMutation(p, r, "C08.R4") })
+	r.GuardExact("C08.R3", "reset-unconditional", "Reset drops the whole per-block state", func() { checkResetUnconditional(p, r, "C08.R3") })
 	r.Guard("C08.R5", "host-interface", "intrinsics forward their arguments", func() { checkHostArgs(p, r, "C08.R5") })
 	r.MinInstances("C08.R1", 5)
 	r.MinInstances("C08.R2", 30)
